@@ -55,12 +55,16 @@ func (t *Tracer) ServeHTTP(w http.ResponseWriter, req *http.Request) {
 	t.next.ServeHTTP(pw, req)
 
 	l := t.newRecord(req, pw, clock.Since(start))
-	t.writerMu.Lock()
-	err := json.NewEncoder(t.writer).Encode(l)
-	t.writerMu.Unlock()
-	if err != nil {
+	if err := t.writeRecord(l); err != nil {
 		t.log.Error("Failed to marshal request: %v", err)
 	}
+}
+
+// writeRecord encodes one record under writerMu; the lock is released even if the writer panics.
+func (t *Tracer) writeRecord(l *Record) error {
+	t.writerMu.Lock()
+	defer t.writerMu.Unlock()
+	return json.NewEncoder(t.writer).Encode(l)
 }
 
 func (t *Tracer) newRecord(req *http.Request, pw *utils.ProxyWriter, diff time.Duration) *Record {
